@@ -824,7 +824,7 @@ pub fn run(tier_name: &str, seed: u64) -> i32 {
                 let grobot = Arc::new(g.cell.build_probed_robot());
                 let goc = OracleCell::new(&g.cell);
                 for f in judge_obs(g, &grobot, &goc, gout) {
-                    if !seen.insert((f.clause.clone(), f.signature.clone())) {
+                    if !seen.insert((f.clause.clone(), f.signature.clone())) || !tally.first_few(&f.clause, &f.signature, 2) {
                         continue;
                     }
                     tally.bump("raw_failures", 1);
@@ -856,7 +856,7 @@ pub fn run(tier_name: &str, seed: u64) -> i32 {
                     }
                 }
                 for f in judge_obs(c, &robot, &oc, out) {
-                    if !seen.insert((f.clause.clone(), f.signature.clone())) {
+                    if !seen.insert((f.clause.clone(), f.signature.clone())) || !tally.first_few(&f.clause, &f.signature, 2) {
                         continue;
                     }
                     tally.bump("raw_failures", 1);
